@@ -180,6 +180,9 @@ pub struct KeyGen {
     /// one short of full, or just grown (right after start or after a clear)
     pub fill_target: Option<usize>,
     pub fill_pct: u64,
+    pub clear_after_fill: bool,
+    /// percent of the jumps that go (nearly) to the end of the time line
+    pub far_jump_pct: u64,
     /// C12: make sure the run contains a clear (at this generated step)
     pub forced_clear_at: Option<usize>,
     pub generated: usize,
@@ -259,6 +262,8 @@ impl KeyWorld {
             sweep_after_mut: 0,
             fill_target: None,
             fill_pct: 0,
+            clear_after_fill: false,
+            far_jump_pct: 3,
             forced_clear_at: None,
             generated: 0,
         }
@@ -311,6 +316,13 @@ impl KeyWorld {
         g.fill_pct = *r.pick(&[0, 0, 25, 50, 100]);
         if r.below(100) < g.fill_pct / 2 {
             g.fill_target = Some(Self::draw_fill_target(cfg, r));
+            g.clear_after_fill = r.chance(1, 3);
+        }
+        // a run in which nothing ever expires (expiration = "never" = i32::MAX), with the clock
+        // allowed to reach the very end of the time line
+        if r.chance(1, 16) {
+            g.horizon_w = [0, 0, 0, 0, 1, 0];
+            g.far_jump_pct = 20;
         }
         if cfg.has(O_TWIN) {
             g.forced_clear_at = Some(r.below(12) as usize);
@@ -319,16 +331,33 @@ impl KeyWorld {
         g
     }
 
-    fn draw_fill_target(cfg: &Cfg, r: &mut Rng) -> usize {
-        // the arena starts with max(hint, 8) slots, one of which is the sentinel
-        let slots = cfg.cap.max(8);
-        let t = match r.below(5) {
-            0 => slots.saturating_sub(2),
-            1 | 2 => slots - 1,
-            3 => slots,
-            _ => 2 * slots,
+    /// An unresolved fill target: 1_000_000 + variant. It is turned into an absolute number
+    /// of stored entries when the fill phase starts, relative to the arena size AT THAT TIME
+    /// (after earlier growth, after a clear): two short of full, one short, exactly full,
+    /// just grown, grown twice.
+    fn draw_fill_target(_cfg: &Cfg, r: &mut Rng) -> usize {
+        1_000_000 + r.below(7) as usize
+    }
+
+    fn resolve_fill_target(&self, unresolved: usize) -> usize {
+        let slots = self.arena_slots_now();
+        let t = match unresolved - 1_000_000 {
+            0 => slots.saturating_sub(3),
+            1 | 2 => slots.saturating_sub(2),
+            3 => slots.saturating_sub(1),
+            4 => slots,
+            5 => 2 * slots,
+            _ => 4 * slots + 1,
         };
-        t.min(40).max(2)
+        t.clamp(2, 300)
+    }
+
+    /// current arena size of the first collection (slots, sentinel included)
+    fn arena_slots_now(&self) -> usize {
+        match self.colls.first().and_then(|c| c.as_ref()).and_then(|c| c.snapshot()) {
+            Some(s) => s.slots.len().max(2),
+            None => self.cfg.cap.max(8),
+        }
     }
 
     /// entries physically stored in the first collection (expired-but-unremoved ones count)
@@ -1281,7 +1310,9 @@ impl World for KeyWorld {
                 return op;
             }
         }
-        if let Some(target) = self.gen.fill_target {
+        if let Some(t0) = self.gen.fill_target {
+            let target = if t0 >= 1_000_000 { self.resolve_fill_target(t0) } else { t0 };
+            self.gen.fill_target = Some(target);
             if self.stored_count() < target && (self.cfg.universe as usize) > target + 1 {
                 for _ in 0..12 {
                     let k = self.pick_key(r);
@@ -1297,6 +1328,14 @@ impl World for KeyWorld {
                 }
             }
             self.gen.fill_target = None;
+            if self.gen.clear_after_fill {
+                // "fill, clear, fill again": the second fill is relative to the arena as the clear left it
+                self.gen.clear_after_fill = false;
+                self.gen.fill_target = Some(Self::draw_fill_target(&self.cfg, r));
+                self.gen.events.clear();
+                let restart = if r.chance(1, 3) && self.now > 0 { r.range(0, self.now as i64 - 1) as i32 } else { -1 };
+                return Op::KClear { restart };
+            }
         }
         for _ in 0..8 {
             let which = r.weighted(&self.gen.w.clone());
@@ -1320,7 +1359,7 @@ impl World for KeyWorld {
                 W_SWEEP => return Op::KSweep,
                 W_TICK => return Op::Tick { dt: r.below(2) as i32 },
                 W_JUMP => {
-                    let far = r.chance(1, 30);
+                    let far = r.below(100) < self.gen.far_jump_pct;
                     let dt = if far { *r.pick(&[i32::MAX, i32::MAX / 2, 1_000_000]) } else { r.range(2, (self.gen.horizon_long as i64).min(64)) as i32 };
                     return Op::Tick { dt };
                 }
